@@ -615,6 +615,29 @@ pub fn run_glr(
     }
 }
 
+/// One GLR parser instance used for a whole sequence of inputs.
+pub struct GlrSession {
+    parser: GlrParser<'static, St, StringLexer<GCtx<'static>, St, Tk, Rec, MAXT>, Pk, Tk, Nk, Def, str, ()>,
+    max_trees: usize,
+}
+
+impl GlrSession {
+    pub fn new(def: &'static Def, recs: &'static [Rec; MAXT], partial: bool, skip_ws: bool, max_trees: usize) -> Self {
+        let has_layout = def.layout_state.is_some();
+        let lexer = StringLexer::new(skip_ws && !has_layout, recs);
+        GlrSession {
+            parser: GlrParser::new(def, partial, has_layout, lexer),
+            max_trees,
+        }
+    }
+    pub fn parse(&self, input: &'static str) -> (Value, Value) {
+        match self.parser.parse(input) {
+            Ok(forest) => (ok_json(), forest_json(&forest, self.max_trees)),
+            Err(e) => (error_json(&e), no_forest()),
+        }
+    }
+}
+
 pub fn no_forest() -> Value {
     json!({"n":0,"trees":[],"iter":0,"iter_same":true,"oob":[false,false],"amb":0,"complete":true})
 }
